@@ -3,6 +3,7 @@ import HappyModel.C17.PB
 import HappyModel.C17.Chain
 import HappyModel.C17.ML
 import HappyModel.C17.MLM
+import HappyModel.C17.MLMK
 /-! Line-protocol driver for C17 (other side: `hv/props/c17.py`). -/
 namespace HappyModel.C17.Driver
 open HappyModel.Proto HappyModel.C17
@@ -214,6 +215,13 @@ def handle (hdr : List String) (body : List String) : List String :=
   | ["judge-ml"] =>
     let (steps, q) := Spec.parseSteps body
     judgeOut (Spec.judgeML steps q)
+  | ["ml-kcomplete", n, nk, res] =>
+    -- the model's own "anti-entropy having run" on a schedule (cross-checked against the judge's reading)
+    let r := MLM.krun (MLM.init (natD n) (natD nk) (if res == "max" then .vmax else .union)) MLM.GK.reset (parseActs body)
+    [s!"kcomplete {showBool (MLM.kcompleteB (natD n) r.2)} err {r.1.err.isSome}"]
+  | ["judge-gossip", n] =>
+    let (steps, _) := Spec.parseSteps body
+    [s!"gossip {showBool (Spec.gossipComplete (natD n) steps)}"]
   | ["judge-ml", n, merging] =>
     let (steps, q) := Spec.parseSteps body
     judgeOut (Spec.judgeMLn (natD n) (merging == "1") steps q)
